@@ -12,6 +12,14 @@
   the Model's inline expression).  Arguments are passed by name, so reordering conjuncts in the
   source is harmless; a changed comparison, a dropped conjunct or a different attribute makes the
   corresponding theorem fail to compile: a broken proof obligation (DESIGN §4.1, §5.3).
+
+  The extractor alpha-normalises every function before translating it, so a LOCAL variable of the
+  source never appears under its own name here or in any other `TablesGuards*.lean`: positional
+  parameters of private / nested functions are `p0, p1, …`, the other locals `v0, v1, …` in the order
+  of their first binding (`self_v1_start_time` is `self[source].start_time` in `_add_pulse`; the
+  docstring of each generated definition shows the source's spelling and the legend).  A consistent
+  renaming of locals in the source therefore changes nothing below; exchanging two locals in a test,
+  or reading another local, does.
 -/
 import DemesVerif.Generated.Guards
 import DemesVerif.Proofs.Guards
@@ -38,11 +46,11 @@ theorem guards_context_resolve : Generated.guardContextResolve =
      ("guard_epoch_order", []), ("guard_epoch_inf_constant", []), ("guard_epoch_constant_sizes", []),
      ("guard_migration_same_deme", []), ("guard_migration_order", []), ("guard_pulse_sum", []),
      ("guard_add_deme_no_ancestors", []),
-     ("guard_add_deme_alive", ["for ancestor in ancestors"]),
-     ("guard_time_intersection", ["if time is not None"]),
-     ("guard_migration_overlap", ["for other in self.migrations"]),
+     ("guard_add_deme_alive", ["for v0 in ancestors"]),
+     ("guard_time_intersection", ["if p2 is not None"]),
+     ("guard_migration_overlap", ["for v4 in self.migrations"]),
      ("guard_pulse_dest_end", []),
-     ("guard_pulse_source_start", ["for source in sources"])] := by decide +kernel
+     ("guard_pulse_source_start", ["for v1 in sources"])] := by decide +kernel
 
 /-! ### validators (Model: `intOrFloat`, `vPositive`, `vNonNegative`, `vFinite`, `vUnitInterval`,
 `vUnitIntervalExLo`).  In every validator list of the library `int_or_float` comes first (pinned
@@ -212,8 +220,8 @@ theorem guard_add_deme_no_ancestors_meaning (ancestors : List String) (startTime
 
 /-- the ancestor-alive test, for every document number `start_time` (NaN included) -/
 theorem guard_add_deme_alive_meaning (ancStart : ETime) (ancEnd : Q) (startTime : Num) :
-    Generated.guard_add_deme_alive (self_ancestor_start_time := Num.ofETime ancStart) (start_time := startTime)
-      (self_ancestor_end_time := Num.fin ancEnd) = true
+    Generated.guard_add_deme_alive (self_v0_start_time := Num.ofETime ancStart) (start_time := startTime)
+      (self_v0_end_time := Num.fin ancEnd) = true
       ↔ ¬ ((Num.lt startTime (Num.ofETime ancStart) && Num.le (Num.fin ancEnd) startTime) = true) := by
   unfold Generated.guard_add_deme_alive
   cases ancStart <;> cases startTime <;> guard_close
@@ -222,8 +230,8 @@ theorem guard_add_deme_alive_meaning (ancStart : ETime) (ancEnd : Q) (startTime 
 "start time within the ancestor's lifetime" tests -/
 theorem guards_tie_add_deme_header : addDemeHeader = addDemeHeaderWith
     (fun n st => Generated.guard_add_deme_no_ancestors (len_ancestors := n) (start_time := st))
-    (fun as st ae => Generated.guard_add_deme_alive (self_ancestor_start_time := as) (start_time := st)
-      (self_ancestor_end_time := ae)) := by
+    (fun as st ae => Generated.guard_add_deme_alive (self_v0_start_time := as) (start_time := st)
+      (self_v0_end_time := ae)) := by
   funext g nameV descriptionV ancestorsV proportionsV startTimeV
   unfold addDemeHeader addDemeHeaderWith
   simp only [guard_add_deme_no_ancestors_meaning, guard_add_deme_alive_meaning, ite_not]
@@ -234,8 +242,8 @@ theorem guards_tie_add_deme_header : addDemeHeader = addDemeHeaderWith
 /-- for every document number `time` (NaN included); `time_lo` / `time_hi` are the source's
 `max` of the end times / `min` of the start times -/
 theorem guard_time_intersection_meaning (e1 e2 : Q) (s1 s2 : ETime) (t : Num) :
-    Generated.guard_time_intersection (deme1_end_time := Num.fin e1) (deme2_end_time := Num.fin e2)
-      (deme1_start_time := Num.ofETime s1) (deme2_start_time := Num.ofETime s2) (time := t)
+    Generated.guard_time_intersection (p0_end_time := Num.fin e1) (p1_end_time := Num.fin e2)
+      (p0_start_time := Num.ofETime s1) (p1_start_time := Num.ofETime s2) (p2 := t)
       = !(Num.le (Num.fin (qmax e1 e2)) t && Num.le t (Num.ofETime (ETime.min s1 s2))) := by
   unfold Generated.guard_time_intersection
   cases s1 <;> cases s2 <;> cases t <;> guard_close
@@ -246,9 +254,9 @@ theorem guards_tie_time_intersection (g : Graph) (n1 n2 : String) (d1 d2 : Deme)
     (h1 : getDeme g n1 = .ok d1) (h2 : getDeme g n2 = .ok d2) (v : Value) (t : Num)
     (hv : v.asNumRaw? = some t) :
     timeIntersection g n1 n2 (some v)
-      = if Generated.guard_time_intersection (deme1_end_time := Num.fin d1.endTime)
-            (deme2_end_time := Num.fin d2.endTime) (deme1_start_time := Num.ofETime d1.startTime)
-            (deme2_start_time := Num.ofETime d2.startTime) (time := t)
+      = if Generated.guard_time_intersection (p0_end_time := Num.fin d1.endTime)
+            (p1_end_time := Num.fin d2.endTime) (p0_start_time := Num.ofETime d1.startTime)
+            (p1_start_time := Num.ofETime d2.startTime) (p2 := t)
         then valueErr "time not in the time-intersection of the two demes"
         else pure (qmax d1.endTime d2.endTime, ETime.min d1.startTime d2.startTime) := by
   simp only [timeIntersection, h1, h2, hv, guard_time_intersection_meaning, bind, Except.bind]
@@ -273,10 +281,10 @@ theorem guard_migration_order_meaning (startTime : ETime) (endTime : Q) :
 other ends (all four conjuncts) -/
 theorem guard_migration_overlap_meaning (oSource oDest source dest : String) (oStart startTime : ETime)
     (oEnd endTime : Q) :
-    Generated.guard_migration_overlap (other_source := oSource) (migration_source := source)
-      (other_dest := oDest) (migration_dest := dest)
-      (other_start_time := Num.ofETime oStart) (migration_end_time := Num.fin endTime)
-      (migration_start_time := Num.ofETime startTime) (other_end_time := Num.fin oEnd)
+    Generated.guard_migration_overlap (v4_source := oSource) (v3_source := source)
+      (v4_dest := oDest) (v3_dest := dest)
+      (v4_start_time := Num.ofETime oStart) (v3_end_time := Num.fin endTime)
+      (v3_start_time := Num.ofETime startTime) (v4_end_time := Num.fin oEnd)
       = (oSource = source && oDest = dest && decide (ETime.fin endTime < oStart)
           && decide (ETime.fin oEnd < startTime)) := by
   unfold Generated.guard_migration_overlap
@@ -285,9 +293,9 @@ theorem guard_migration_overlap_meaning (oSource oDest source dest : String) (oS
 theorem guards_tie_add_asymmetric_migration : addAsymmetricMigration = addAsymmetricMigrationWith
     (fun s d => Generated.guard_migration_same_deme (self_source := s) (self_dest := d))
     (fun st et => Generated.guard_migration_order (self_start_time := st) (self_end_time := et))
-    (fun os ms od md ost met mst oet => Generated.guard_migration_overlap (other_source := os)
-      (migration_source := ms) (other_dest := od) (migration_dest := md) (other_start_time := ost)
-      (migration_end_time := met) (migration_start_time := mst) (other_end_time := oet)) := by
+    (fun os ms od md ost met mst oet => Generated.guard_migration_overlap (v4_source := os)
+      (v3_source := ms) (v4_dest := od) (v3_dest := md) (v4_start_time := ost)
+      (v3_end_time := met) (v3_start_time := mst) (v4_end_time := oet)) := by
   funext g sourceV destV rateV startTimeV endTimeV
   unfold addAsymmetricMigration addAsymmetricMigrationWith
   simp only [guard_migration_same_deme_meaning, guard_migration_order_meaning, guard_migration_overlap_meaning]
@@ -307,7 +315,7 @@ theorem guard_pulse_dest_end_meaning (tRaw : Option Num) (destEnd : Q) :
 
 theorem guard_pulse_source_start_meaning (tRaw : Option Num) (srcStart : ETime) :
     (tRaw.any fun t => Generated.guard_pulse_source_start (time := t)
-      (self_source_start_time := Num.ofETime srcStart)) = true
+      (self_v1_start_time := Num.ofETime srcStart)) = true
       ↔ tRaw = some (Num.ofETime srcStart) := by
   unfold Generated.guard_pulse_source_start
   rcases tRaw with _ | t
@@ -321,7 +329,7 @@ theorem guard_pulse_sum_meaning (s : Q) :
 
 theorem guards_tie_add_pulse : addPulse = addPulseWith
     (fun t e => Generated.guard_pulse_dest_end (time := t) (self_dest_end_time := e))
-    (fun t s => Generated.guard_pulse_source_start (time := t) (self_source_start_time := s))
+    (fun t s => Generated.guard_pulse_source_start (time := t) (self_v1_start_time := s))
     (fun s => Generated.guard_pulse_sum (sum_self_proportions := s)) := by
   funext g sourcesV destV timeV proportionsV
   unfold addPulse addPulseWith
